@@ -375,7 +375,7 @@ func c07DoubleOpen(c *ev.Ctx) {
 // through all the others: every pair is on one path, so none may enter.
 func c07SimultaneousFirstWalks(c *ev.Ctx) {
 	const K = 8
-	rounds := c.Sz(150, 8000)
+	rounds := c.Sz(1200, 64000) // sharded
 	fs := memfs.New()
 	fs.NoWalkGetAttr = true
 	for i := 0; i < rounds; i++ {
@@ -384,7 +384,7 @@ func c07SimultaneousFirstWalks(c *ev.Ctx) {
 	srv := p9.NewServer(fs)
 	var conns []*sess
 	for k := 0; k < K; k++ {
-		s, vr := newSess(srv, 1<<16, v7)
+		s, vr := newSessOn(srv, 1<<16, v7, nil) // pipes: thousands of "blocked" decisions (see newConcWorld)
 		if !vr.OK || s.attach(0, "").Errno() != 0 {
 			c.Inconclusive("C07 first-walks setup")
 			return
@@ -397,6 +397,9 @@ func c07SimultaneousFirstWalks(c *ev.Ctx) {
 		}
 	}()
 	for round := 0; round < rounds; round++ {
+		if !c.Mine(round) {
+			continue
+		}
 		name := fmt.Sprintf("f%04d", round)
 		path := "/d/" + name
 		c.Begin("C07 simultaneous first walks " + name)
